@@ -65,10 +65,18 @@ def known_match(entry, cfg, ob):
     return True
 
 
-def replay_model(mod, cfg, values, want_name):
+def _exc_class(ob):
+    info = ob.get("info") if isinstance(ob.get("info"), dict) else {}
+    return str(info.get("exception") or "").split("(")[0].strip()
+
+
+def replay_model(mod, cfg, values, want_name, want_ob=None):
     """Run the real code concretely on a model.  -> (reproduced, obligations, aborted)"""
     cc = core.run_path(mod.harness, cfg, mode="conc", values=values)
     hit = [o for o in cc.obligations if o["name"] == want_name and o["status"] == "violated"]
+    if want_name == "no-unexpected-exception" and want_ob is not None:
+        # an unexpected exception reproduces only if the real code raises the same kind
+        hit = [o for o in hit if _exc_class(o) == _exc_class(want_ob)]
     return bool(hit), cc.obligations, cc.aborted, (hit[0] if hit else None)
 
 
@@ -193,7 +201,7 @@ def main(argv=None):
         for o in obs_sorted[:6]:
             if o.get("model") is None:
                 continue
-            ok, cobs, cab, hit = replay_model(mod, cfg, o["model"], name)
+            ok, cobs, cab, hit = replay_model(mod, cfg, o["model"], name, o)
             if ok:
                 o = dict(o)
                 o["concrete"] = hit.get("info")
